@@ -39,7 +39,9 @@ func (e *Engine) scan() {
 }
 
 func (e *Engine) background() string {
-	return e.sorts.prelude() + e.specPrelude() + e.anyAxioms()
+	sp := e.specPrelude() // may discover further boxed types
+	aa := e.anyAxioms()
+	return e.sorts.prelude() + sp + aa
 }
 
 type RunResult struct {
